@@ -25,6 +25,8 @@ fn main() {
         match prop {
             "C01" | "C03" | "C07" => vcore::ck_engine::replay(prop, path),
             "C08" => vcore::ck_crash::replay(path),
+            "C09" => vcore::ck_storage::replay_c09(path),
+            "C10" => vcore::ck_storage::replay_c10(path),
             _ => {
                 eprintln!("no replay for {prop}");
                 std::process::exit(2);
@@ -39,6 +41,8 @@ fn main() {
         match prop {
             "C01" | "C03" | "C07" => vcore::ck_engine::check(prop, tier),
             "C08" => vcore::ck_crash::check(tier),
+            "C09" => vcore::ck_storage::check_c09(tier),
+            "C10" => vcore::ck_storage::check_c10(tier),
             _ => {
                 eprintln!("unknown property {prop}");
                 std::process::exit(2);
